@@ -424,6 +424,19 @@ def run(M, c):
                 if secs:
                     lo_, hi_ = (base, x) if sign > 0 else (x, base)
                     _expect_humans(M, "DateTime", s, P.Interval(lo_, hi_), loc, other is None, sign > 0, absolute)
+                if i % 11 == 0:
+                    # two instants less than a second apart (same tzinfo object): the direction is still that of the instants
+                    us_ = r.choice((1, 300000, 700000, 999999))
+                    for zn_ in ("UTC", "Europe/Paris"):
+                        b2 = P.DateTime(2021, 6, 15, 12, 0, 0, 100, tzinfo=P.timezone(zn_))
+                        x2 = b2.add(microseconds=sign * us_)
+                        M.current = {"k": "human-subsecond", "loc": loc, "us": sign * us_, "zone": zn_, "abs": absolute}
+                        try:
+                            s5 = x2.diff_for_humans(b2, absolute=absolute, locale=loc)
+                        except Exception:  # noqa: BLE001
+                            continue
+                        lo5, hi5 = (b2, x2) if sign > 0 else (x2, b2)
+                        _expect_humans(M, "DateTime-subsecond", s5, P.Interval(lo5, hi5), loc, False, sign > 0, absolute)
                 if i % 9 == 0 and secs:
                     # other operand kinds for the reference: pendulum DateTime / native date / native datetime given to a
                     # Date, native aware datetime given to a DateTime, native time given to a Time
